@@ -93,6 +93,20 @@ static void scenario() {
             auto ids = gated(1, initext, [&](int) { Sq.try_put(1); Sq.try_put(0); });
             vf_window(1); vf_gate_open(); Sq.try_put(3); Sq.try_put(2); g.wait_for_all(); join_all(ids); g.wait_for_all(); quiet = true; vf_window(0);
             if (f.order.size() != 4) vf_fail("sequencer_node forwarded %zu of 4 items", f.order.size()); for (int i = 0; i < 4; i++) if (f.order[i] != i) vf_fail("sequencer_node forwarded item %d at position %d", f.order[i], i); }
+        else if (streq(k, "wonce") || streq(k, "owrite")) {   // write_once_node / overwrite_node written by two threads at once, one successor attached before and one after
+            bool once = streq(k, "wonce"); write_once_node<int> wo(g); overwrite_node<int> ow(g); std::vector<int> got1, got2;
+            function_node<int, continue_msg> S1(g, serial, [&](int v) { got1.push_back(v); vf_point(); return continue_msg(); }), S2(g, serial, [&](int v) { got2.push_back(v); vf_point(); return continue_msg(); });
+            if (once) make_edge(wo, S1); else make_edge(ow, S1);
+            static int r1, r2; r1 = r2 = -1;
+            auto ids = gated(1, initext, [&](int) { r2 = once ? wo.try_put(2) : ow.try_put(2); });
+            vf_window(1); vf_gate_open(); r1 = once ? wo.try_put(1) : ow.try_put(1); join_all(ids); g.wait_for_all();
+            int cur = -1; bool has = once ? wo.try_get(cur) : ow.try_get(cur); if (!has) vf_fail("%s holds no value after two puts", k);
+            if (once) { if (r1 + r2 != 1) vf_fail("write_once_node accepted %d of two concurrent first puts", r1 + r2); int first = r1 ? 1 : 2; if (cur != first) vf_fail("write_once_node holds %d, the accepted put was %d", cur, first);
+                if (got1.size() != 1 || got1[0] != first) vf_fail("write_once_node delivered %zu values to its successor (first %d), exactly the accepted value %d was expected", got1.size(), got1.empty() ? -1 : got1[0], first); }
+            else { if (!r1 || !r2) vf_fail("overwrite_node rejected a put"); if (got1.size() != 2) vf_fail("overwrite_node delivered %zu of 2 values to its successor", got1.size()); if (got1.back() != cur && got1[0] != cur) vf_fail("overwrite_node holds %d which it never delivered", cur); }
+            if (once) make_edge(wo, S2); else make_edge(ow, S2); g.wait_for_all(); quiet = true; vf_window(0);
+            if (got2.size() != 1 || got2[0] != cur) vf_fail("%s delivered %zu values (first %d) to a successor attached later, the stored value %d was expected", k, got2.size(), got2.empty() ? -1 : got2[0], cur);
+            vf_outcome("cur=%d r=%d%d ", cur, r1, r2); }
         else vf_fail("unknown kind");
         vf_outcome("rejected=%d F:%s F2:%s S:%s", rejected, ord(f).c_str(), ord(f2).c_str(), ord(s).c_str());
     });
